@@ -10,6 +10,9 @@
      ec.dblmul <lvl> P Q PQ A C k l                                                      -> X Z
      ec.dblmulb <lvl> P Q PQ A C k l f                                                   -> X Z
      ec.ladder3pt <lvl> P Q PQ A C m          (A24 normalised by ec_curve_normalize_A24)  -> X Z
+     jac.seq <lvl> <nF> a P1..Pn (Jacobian, 3 field elements each)  ops: triples (1 i j = ADD, 2 i _ = DBL, 3 i _ = jac_neg),
+                                                                   every result is a new register        -> X Y Z of the last
+     jac.dblmul <lvl> 7 a P Q  nbits k l      (nbits = 40 hex -> DBLMUL, otherwise DBLMUL_generic, size = nbits/64) -> X Y Z
      ec.dbliter <lvl> n P A C                 (res preset to (0x5a5a:0x5a5a))            -> X Z | flag
    Field elements are printed through fp2_encode (canonical), minimal lowercase hex. */
 #include <stdio.h>
@@ -55,6 +58,8 @@ void ec_normalize_point(ec_point_t *P);
 void ec_normalize_curve(ec_curve_t *E);
 void ec_curve_normalize_A24(ec_curve_t *E);
 void xDBLADD_normalized(ec_point_t *R, ec_point_t *S, ec_point_t const *P, ec_point_t const *Q, ec_point_t const *PQ, ec_point_t const *A24);
+void DBLMUL(jac_point_t *R, const jac_point_t *P, const digit_t k, const jac_point_t *Q, const digit_t l, const ec_curve_t *curve);
+void DBLMUL_generic(jac_point_t *R, const jac_point_t *P, const digit_t *k, const jac_point_t *Q, const digit_t *l, const ec_curve_t *curve, int size);
 void xDBLMUL_bounded(ec_point_t *S, ec_point_t const *P, digit_t const *k, ec_point_t const *Q, digit_t const *l, ec_point_t const *PQ, const ec_curve_t *curve, int f);
 
 #define MAXTOK 4096
@@ -160,6 +165,42 @@ int main(void)
             for (int i = 0; GEN_OPS[i].name; i++)
                 if (!strcmp(GEN_OPS[i].name, g_tok[2])) { GEN_OPS[i].fn(); found = 1; break; }
             if (!found) printf("R bad-op\n");
+            fflush(stdout);
+            continue;
+        }
+        if (!strncmp(op, "jac.", 4)) {
+            if (g_ntok < 3) { printf("R bad-op\n"); continue; }
+            long nF = strtol(g_tok[2], NULL, 16);
+            g_fpos = 3; g_fend = 3 + 2 * (int)nF; g_ipos = g_fend;
+            if (g_fend > g_ntok || nF < 1) { printf("R bad-args\n"); continue; }
+            static jac_point_t regs[256];
+            ec_curve_t E; ec_curve_init(&E); rd_fp2(&E.A);
+            int nreg = 0;
+            while (rd_remaining_fp2() >= 3 && nreg < 64) { rd_fp2(&regs[nreg].x); rd_fp2(&regs[nreg].y); rd_fp2(&regs[nreg].z); nreg++; }
+            out_begin();
+            if (!strcmp(op, "jac.seq")) {
+                int bad = 0;
+                while (g_ipos + 3 <= g_ntok && nreg < 255) {
+                    long c = rd_int(), i = rd_int(), j = rd_int();
+                    if (i < 0 || i >= nreg || (c == 1 && (j < 0 || j >= nreg))) { bad = 1; break; }
+                    if (c == 1) ADD(&regs[nreg], &regs[i], &regs[j], &E);
+                    else if (c == 2) DBL(&regs[nreg], &regs[i], &E);
+                    else if (c == 3) jac_neg(&regs[nreg], &regs[i]);
+                    else { bad = 1; break; }
+                    nreg++;
+                }
+                if (bad || nreg == 0) { printf("R bad-args\n"); fflush(stdout); continue; }
+                out_fp2(&regs[nreg - 1].x); out_fp2(&regs[nreg - 1].y); out_fp2(&regs[nreg - 1].z);
+            } else if (!strcmp(op, "jac.dblmul") && nreg == 2 && g_ipos + 3 <= g_ntok) {
+                long nbits = rd_int();
+                digit_t k[16] = { 0 }, l[16] = { 0 };
+                jac_point_t R;
+                scalar_from_hex(k, g_tok[g_ipos], 16); scalar_from_hex(l, g_tok[g_ipos + 1], 16);
+                if (nbits == 64) DBLMUL(&R, &regs[0], k[0], &regs[1], l[0], &E);
+                else DBLMUL_generic(&R, &regs[0], k, &regs[1], l, &E, (int)(nbits / 64));
+                out_fp2(&R.x); out_fp2(&R.y); out_fp2(&R.z);
+            } else { printf("R bad-args\n"); fflush(stdout); continue; }
+            out_end();
             fflush(stdout);
             continue;
         }
